@@ -75,6 +75,9 @@ type Scenario struct {
 	TickBudget int64     `json:"tick_budget,omitempty"`
 	Log        string    `json:"log,omitempty"`
 	Note       string    `json:"note,omitempty"`
+	// Real: judge the shipped (tag-off, uninstrumented) binary on a real directory holding the disk image
+	// instead of the simulated run (fault-free scenarios only; deterministic, so it replays).
+	Real bool `json:"real,omitempty"`
 	// Extra carries property-specific replay data (e.g. the C07 variant description).
 	Extra  json.RawMessage `json:"extra,omitempty"`
 	Expect *Expect         `json:"expect,omitempty"`
